@@ -121,9 +121,9 @@ def run_verus(path, seed=None, extra=(), multiple_errors=12, rlimit=None):
     cmd += list(extra)
     t0 = time.time()
     try:
-        p = subprocess.run(cmd, cwd=os.path.dirname(path), capture_output=True, text=True, timeout=3000)
+        p = subprocess.run(cmd, cwd=os.path.dirname(path), capture_output=True, text=True, timeout=CFG.VERUS_TIMEOUT_S)
     except subprocess.TimeoutExpired:
-        raise NoVerdict("verus timed out on %s" % path)
+        raise NoVerdict("verus did not finish within %d s on %s (the solver diverged without consuming its resource limit): no verdict" % (CFG.VERUS_TIMEOUT_S, os.path.basename(path)))
     wall = time.time() - t0
     js = None
     try:
